@@ -32,6 +32,8 @@ func init() {
 		"NewConnect")
 	propSpecs["C19"] = &PropSpec{ID: "C19", Roots: renderRoots, InvariantMethods: true,
 		Note: "all panic obligations of String, dump, Dump and of the table-driven renderings are discharged for every packet value satisfying the representation invariant (CONNECT: will flag set implies a will message is attached), which is proved to hold for constructor results and to be preserved by every mutator that touches the flag byte or the will, and by UnmarshalBinary also when it fails"}
+	propSpecs["C05"] = &PropSpec{ID: "C05", Roots: decodeRoots,
+		Note: "every loop on the decode path carries a variant that is proved non-negative and strictly decreasing (getAny, the filter loops, the reason-code loops, the variable-byte-integer loops), so iterations are bounded by the frame length; the number of list elements appended during one decode (ghost counter $elems: user properties, subscription identifiers, topic filters) and the reason-code list are proved <= len(data); every make() on the decode path is sized by bytes present in the frame (string length <= remaining bytes, reason codes = remaining bytes, frame buffer = declared remaining length <= 268435455)"}
 	propSpecs["C04"] = &PropSpec{ID: "C04", Roots: decodeRoots,
 		Note: "every automatically generated panic obligation (index, slice, nil dereference, type assertion, make, explicit panic, nil call) of ReadPacket and of the 16 UnmarshalBinary methods and of everything they call is discharged for arbitrary input bytes; plus the (packet, error) pair postcondition of ReadPacket/ReadRemaining"}
 }
